@@ -1,6 +1,7 @@
 import ComposeVerif.Ops.Common
 import ComposeVerif.Model.Paths
 import ComposeVerif.Spec.Paths
+import ComposeVerif.Model.PathsOrigin
 /-! line-protocol ops for C12: `c12.join`, `c12.winabs`, `c12.remote`, `c12.resolve`, `c12.spec` -/
 open Lean
 namespace CV.Ops.C12
@@ -55,6 +56,47 @@ def resolveOp : Handler := fun args =>
     Json.mkObj [("out", outJson (resolve cfg v)),
                 ("fails", Json.arr ((dedup (fails CV.Gen.resolvers cfg TPath.root v)).map Json.str).toArray)]
 
+def outStrJson : Out Str → Json
+  | .ok r => Json.mkObj [("ok", str r)]
+  | .err e => Json.mkObj [("err", e)]
+  | .panic x => Json.mkObj [("panic", x)]
+
+/-- `filepath.Rel(base, targ)`, `filepath.Dir(base)` -/
+def relOp : Handler := fun args =>
+  let b := (getStr args "base").toList
+  let t := (getStr args "targ").toList
+  Json.mkObj [("rel", match rel b t with | some r => str r | none => Json.null), ("dir", str (dir b))]
+
+def isDirOf (args : Json) : Str → Bool :=
+  let dirs := (getStrList args "dirs").map String.toList
+  fun p => dirs.contains (clean p)
+
+/-- `localResourceLoader{lw}.Dir(orig)` -/
+def ldirOp : Handler := fun args =>
+  Json.mkObj [("dir", str (loaderDir (isDirOf args) (getStr args "lw").toList (getStr args "orig").toList))]
+
+def stepOf (j : Json) : Option Step :=
+  match j.getObjVal? "ext" with
+  | .ok (.str f) => some (.ext f.toList)
+  | _ =>
+    match j.getObjVal? "incl" with
+    | .ok (.str p) =>
+      match j.getObjVal? "pd" with
+      | .ok (.str d) => some (.incl p.toList (some d.toList))
+      | _ => some (.incl p.toList none)
+    | _ => none
+
+def kindNo : String → Nat
+  | "local" => 0 | "context" => 1 | _ => 2
+
+/-- the value the MODEL predicts for a whole load: origin chain → bases → staged resolution -/
+def predictOf (args : Json) : Json :=
+  let cfg := cfgOf args
+  let steps := match args.getObjVal? "steps" with
+    | .ok (.arr a) => a.toList.filterMap stepOf
+    | _ => []
+  outStrJson (predict (kindNo (getStr args "kind")) cfg (isDirOf args) steps (getBool args "final") (getStr args "s").toList)
+
 /-- the specification, decided on one attribute value: what the property says the resolved value is -/
 def specOp : Handler := fun args =>
   let cfg := cfgOf args
@@ -63,10 +105,14 @@ def specOp : Handler := fun args =>
   match CV.Paths.Spec.kindOf kind with
   | none => Json.mkObj [("bad", "kind")]
   | some k =>
-    Json.mkObj [("want", match CV.Paths.Spec.expected? k cfg.wd cfg.home cfg.remote s with
-                          | some r => str r
-                          | none => Json.null),
-                ("class", CV.Paths.Spec.shapeName (CV.Paths.Spec.classify k cfg.remote s))]
+    let want : Json := match CV.Paths.Spec.expected? k cfg.wd cfg.home cfg.remote s with
+      | some r => str r
+      | none => Json.null
+    let cls : Json := Json.str (CV.Paths.Spec.shapeName (CV.Paths.Spec.classify k cfg.remote s))
+    let model : List (String × Json) := match args.getObjVal? "model" with
+      | .ok m => [("model", predictOf m)]
+      | _ => []
+    Json.mkObj ([("want", want), ("class", cls)] ++ model)
 
 /-- a batch of spec questions: `items = [{kind, wd, home, remotes, s}, …]` -/
 def specsOp : Handler := fun args =>
@@ -76,6 +122,7 @@ def specsOp : Handler := fun args =>
 
 def handlers : List (String × Handler) :=
   [("c12.join", joinOp), ("c12.winabs", winabsOp), ("c12.remote", remoteOp),
-   ("c12.resolve", resolveOp), ("c12.spec", specOp), ("c12.specs", specsOp)]
+   ("c12.resolve", resolveOp), ("c12.spec", specOp), ("c12.specs", specsOp),
+   ("c12.rel", relOp), ("c12.ldir", ldirOp)]
 
 end CV.Ops.C12
